@@ -6,8 +6,8 @@ func init() {
 	const rg = "sync/ranges.go"
 	add(
 		Variant{Prop: "C03", Name: "seed-head-cache-moved-after-the-store-append", File: ss, Expect: "C03.c",
-			Old: "\t\t\thead = h\n\t\t}\n\n\t\ts.head.Store(&head)\n\t}\n\n\tif err := s.Store.Append(ctx, headers...); err != nil {\n\t\treturn err\n\t}\n\n\treturn nil\n}",
-			New: "\t\t\thead = h\n\t\t}\n\t}\n\n\tif err := s.Store.Append(ctx, headers...); err != nil {\n\t\treturn err\n\t}\n\n\tif headers[0].Height() >= head.Height() {\n\t\ts.head.Store(&head)\n\t}\n\treturn nil\n}"},
+			Old: "\t\t\thead = h\n\t\t}\n\n\t\ts.head.Store(&head)\n\t}\n\n\tif err := s.Store.Append(ctx, headers...); err != nil {\n\t\t// nothing was handed to the Store: the cached head must not stay on headers that are not there\n\t\t// (the swap does nothing unless the cache still holds what was stored above)\n\t\ts.head.CompareAndSwap(&head, prev)\n\t\treturn err\n\t}\n\n\treturn nil\n}",
+			New: "\t\t\thead = h\n\t\t}\n\t}\n\n\tif err := s.Store.Append(ctx, headers...); err != nil {\n\t\t_ = prev\n\t\treturn err\n\t}\n\n\tif headers[0].Height() >= head.Height() {\n\t\ts.head.Store(&head)\n\t}\n\treturn nil\n}"},
 		Variant{Prop: "C03", Name: "seed-pending-range-shifted-in-place", File: rg, Expect: "C03.g",
 			Old: "\tr.headers = r.headers[amnt:]\n", New: "\tn := copy(r.headers, r.headers[amnt:])\n\tr.headers = r.headers[:n]\n"},
 		Variant{Prop: "C03", Name: "pending-range-element-overwritten", File: rg, Expect: "C03.g",
